@@ -189,6 +189,8 @@ def _param_values(I, params):
     """params![...] = &[&dyn ToSql]: every element is turned into its SQL value through the crate's own ToSql impl
     where it has one (StoredUuid), Vec<u8>/String/integers are stored as they are"""
     p = deref(params)
+    if not isinstance(p, (PyVec, PySlice, Adt)) and str(getattr(p, 'path', '')).strip() in ('[]', '()'):
+        p = PyVec([])          # an empty parameter list written as a bare constant
     items = p.items if isinstance(p, (PyVec, PySlice)) else list(p.fields) if isinstance(p, Adt) else None
     if items is None:
         raise Unsupported('SQL parameters ' + repr(p)[:80])
